@@ -320,6 +320,11 @@ VECTORS = {
                (0, 1, 3, True, [0, 2, 1])],
     "fragment": [(0, 0, 4), (1, 9, 4), (0, 4, 5), (1, 7, 6)],
 }
+# the vectors above are written for 3 hops; the hop list must have BOUNDS[tier]['hops'] entries, so for a
+# deeper tier every chain is continued with a final "200" answer (index 3 of the small menus)
+_HOPS = BOUNDS.get(api.TIER, BOUNDS["quick"])["hops"]
+for _name in ("chain", "limits"):
+    VECTORS[_name] = [v[:-1] + ((v[-1] + [3] * _HOPS)[:_HOPS],) for v in VECTORS[_name]]
 
 
 def selftest():
